@@ -130,6 +130,13 @@ def run(ck):
               "eval_block() can be reached without passing the limit test after the increment", fi,
               sl.eval.ast, witness=path_witness(g, p2 or p3))
 
+    R9 = ck.rule('R10.9', "the evaluation order rests on complete wiring: select_blk reads iconnections, so every "
+                 "connection (also of an inverter created on the fly) is entered in both directions - a block "
+                 "missing its iconnections looks ready, is evaluated before its sources and re-evaluated after "
+                 "each of them: the evaluation count of an acyclic network explodes", 'M0', 3)
+    with ck.section('R10.9'):
+        from rules.wiring import wiring_rules
+        wiring_rules(ck, R9)
     with ck.section('R10.2'):
         # ------------------------------------------------------------------ R10.2
         resets = nodes_where(g, lambda n: isinstance(n.ast, ast.Assign) and
@@ -169,6 +176,20 @@ def run(ck):
                   f"`{hname}()` writes the evaluation counter and is called inside a burst: feedback "
                   f"through events would never be detected (the simulator spins forever)", fi, r.ast)
         ck.need(R2, resets or helper_calls, "_simulate: no counter reset inside the loop (unrecognised structure)")
+        # ... and it does restart at every idle: no path from the wake-up to the next counted evaluation
+        # avoids the reset (a settled circuit would otherwise be charged for the bursts before it)
+        if incs:
+            wake_succ = [g.nodes[v] for v, lab in g.succ[idle[0].id] if lab != 'exc']
+            wit_ = None
+            for a_ in wake_succ:
+                if a_ in resets or a_ in helper_calls:
+                    continue
+                wit_ = wit_ or g.path_avoiding(a_, incs, avoid=list(resets) + list(helper_calls) + [idle[0]])
+            ck.ob(R2, f"{SIMULATE} :: restart at every idle", wit_ is None,
+                  "every path from the wake-up to the next counted evaluation restarts the counter" if wit_ is None
+                  else "after an idle wait the next burst can be counted on top of the previous ones: an acyclic "
+                  "network is reported as unstable after enough settled bursts", fi, idle[0].ast,
+                  witness=path_witness(g, wit_))
         # other writers of the counter inside the loop
         others = nodes_where(g, lambda n: n.id in sl.loop_nodes and n not in incs and n not in resets
                              and counter in __import__('sa.dataflow', fromlist=['node_defs']).node_defs(n))
